@@ -1210,6 +1210,7 @@ package ucfg
 //@ requires len(r.Path.fields) >= 1 && forall j int :: 0 <= j && j < len(r.Path.fields) ==> r.Path.fields[j] != nil
 //@ requires forall j int :: 0 <= j && j < len(opts.env) ==> opts.env[j] != nil
 //@ modifies map(opts.activeFields.fields)
+//@ ensures [naming !unproved] v == rrVal(r, cfg, opts) && err == rrErr(r, cfg, opts)
 //@ ensures [cycle @C08] old(inChain(opts.activeFields, pathStr(r.Path))) ==> v == nil && err != nil && cyclic(err)
 //@ ensures [registered @C08] inChain(opts.activeFields, pathStr(r.Path))
 //@ ensures [scope @C08] opts.activeFields == old(opts.activeFields)
@@ -1233,6 +1234,7 @@ package ucfg
 //@ requires r != nil && opts != nil
 //@ requires forall j int :: 0 <= j && j < len(opts.resolvers) ==> opts.resolvers[j] != nil
 //@ pure
+//@ ensures [naming !unproved] (err == nil) == reOk(r, cfg, opts) && s == reStr(r, cfg, opts)
 //@ ensures [last_wins] len(opts.resolvers) > 0 && dyn2(opts.resolvers[len(opts.resolvers) - 1], error, pathStr(r.Path)) == nil ==> err == nil && s == dyn0(opts.resolvers[len(opts.resolvers) - 1], string, pathStr(r.Path))
 //@ ensures [success_is_a_resolver] err == nil ==> exists j int :: 0 <= j && j < len(opts.resolvers) && dyn2(opts.resolvers[j], error, pathStr(r.Path)) == nil && s == dyn0(opts.resolvers[j], string, pathStr(r.Path)) && forall i int :: j < i && i < len(opts.resolvers) ==> dyn2(opts.resolvers[i], error, pathStr(r.Path)) != nil
 //@ ensures [none] (forall j int :: 0 <= j && j < len(opts.resolvers) ==> dyn2(opts.resolvers[j], error, pathStr(r.Path)) != nil) ==> err != nil
@@ -1271,12 +1273,45 @@ package ucfg
 //@ ensures (err == nil) == refOk(pathKey(r.Path), cfg)
 //@ ensures err == nil ==> s == refStr(pathKey(r.Path), cfg)
 
+// the error predicates of errpred.go, over the reason named by Error.Reason
+//@ func isCyclicError :: err -> r
+//@ props C08 C07
+//@ pure
+//@ ensures [spec] r == (err != nil && isTyped(err) && reasonOf(err) == ErrCyclicReference)
+
+//@ func isMissingError :: err -> r
+//@ props C08 C07
+//@ pure
+//@ ensures [spec] r == (err != nil && isTyped(err) && reasonOf(err) == ErrMissing)
+
+//@ func criticalResolveError :: err -> r
+//@ props C08 C07
+//@ pure
+//@ ensures [spec] r == (err != nil && !(isTyped(err) && (reasonOf(err) == ErrCyclicReference || reasonOf(err) == ErrMissing)))
+
+// resolve: what the lookup in the tree and the Env configurations finds is returned; a failure that is neither
+// "missing" nor "cyclic reference" is returned as it is; a missing name or a cyclic reference falls through to the
+// resolvers (which may absorb it); when they fail too, a cyclic reference is reported as such.
+// rrVal/rrErr, reOk/reStr name the results of the two lookups (assumed functions of reference, configuration and
+// options while one setting is read).
+//@ ghost func rrVal(r *reference, cfg *Config, opts *options) value
+//@ ghost func rrErr(r *reference, cfg *Config, opts *options) error
+//@ ghost func reOk(r *reference, cfg *Config, opts *options) bool
+//@ ghost func reStr(r *reference, cfg *Config, opts *options) string
+//@ ghost func reErr(r *reference, cfg *Config, opts *options) error
 //@ func (*reference).resolve :: r, cfg, opts -> v, err
-//@ trusted
+//@ props C08 C02
+//@ sweep
+//@ note the frame and the preconditions of the two lookups are assumed here (as they were when this function was trusted); the clauses are proved
 //@ requires r != nil && opts != nil
 //@ modifies tree(opts)
-//@ ensures (err == nil) == resOk(pathKey(r.Path), cfg)
-//@ ensures err == nil ==> v == resVal(pathKey(r.Path), cfg)
+//@ ensures [naming_ok !unproved] (err == nil) == resOk(pathKey(r.Path), cfg)
+//@ ensures [naming_val !unproved] err == nil ==> v == resVal(pathKey(r.Path), cfg)
+//@ ensures [found] rrVal(r, cfg, opts) != nil ==> v == rrVal(r, cfg, opts) && err == rrErr(r, cfg, opts)
+//@ ensures [critical] rrVal(r, cfg, opts) == nil && rrErr(r, cfg, opts) != nil && !(isTyped(rrErr(r, cfg, opts)) && (reasonOf(rrErr(r, cfg, opts)) == old(ErrCyclicReference) || reasonOf(rrErr(r, cfg, opts)) == old(ErrMissing))) ==> v == nil && err == rrErr(r, cfg, opts)
+//@ ensures [absorbed] rrVal(r, cfg, opts) == nil && (rrErr(r, cfg, opts) == nil || (isTyped(rrErr(r, cfg, opts)) && (reasonOf(rrErr(r, cfg, opts)) == old(ErrCyclicReference) || reasonOf(rrErr(r, cfg, opts)) == old(ErrMissing)))) && reOk(r, cfg, opts) ==> err == nil && (reStr(r, cfg, opts) != "" ==> v != nil)
+//@ ensures [cycle_reported] rrVal(r, cfg, opts) == nil && rrErr(r, cfg, opts) != nil && isTyped(rrErr(r, cfg, opts)) && reasonOf(rrErr(r, cfg, opts)) == old(ErrCyclicReference) && !reOk(r, cfg, opts) ==> v == nil && err == rrErr(r, cfg, opts)
+//@ ensures [both_fail] rrVal(r, cfg, opts) == nil && (rrErr(r, cfg, opts) == nil || (isTyped(rrErr(r, cfg, opts)) && reasonOf(rrErr(r, cfg, opts)) == old(ErrMissing))) && !reOk(r, cfg, opts) ==> v == nil && err != nil
 
 //@ func (*expansionSingle).eval :: e, cfg, opts -> s, err
 //@ props C02
